@@ -349,6 +349,9 @@ impl Family for C19Ops {
 
 pub struct C19Subjects;
 
+/// operator stages with state of their own between the subject and the observer
+pub const STATEFUL_STAGES: &[&str] = &["window_with_count", "group_by", "scan", "buffer_with_count", "take_last", "skip_last", "distinct_until_changed", "reduce", "time_interval", "take", "skip", "materialize"];
+
 #[derive(Clone)]
 enum Subj {
   Plain(subjects::Subject<'static, Val>),
@@ -435,7 +438,9 @@ impl Family for C19Subjects {
     Json::obj(vec![
       ("subject", Json::str(*rng.pick(&["subject", "subject", "behavior", "replay", "async", "raw", "raw"]))),
       ("threads", Json::Arr(threads)),
-      ("observers", Json::Arr((0..rng.range(1, 2)).map(|_| Json::str(*rng.pick(&["direct", "direct", "map"]))).collect())),
+      // an observer may sit behind an operator with state and locks of its own (a=2): its item handler
+      // and its terminal handler then run on different threads at once
+      ("observers", Json::Arr((0..rng.range(1, 2)).map(|_| Json::str(if rng.below(3) == 0 { *rng.pick(STATEFUL_STAGES) } else { *rng.pick(&["direct", "direct", "map"]) })).collect())),
       ("cb_probes", Json::Int(rng.below(3) as i64)),
     ])
   }
@@ -469,7 +474,7 @@ impl Family for C19Subjects {
       }
     }
     let obs_kinds: Vec<String> = w.a("observers").iter().filter_map(|x| x.as_str().map(|s| s.to_string())).collect();
-    if obs_kinds.is_empty() || obs_kinds.len() > 3 || obs_kinds.iter().any(|k| k != "direct" && k != "map") {
+    if obs_kinds.is_empty() || obs_kinds.len() > 3 || obs_kinds.iter().any(|k| k != "direct" && k != "map" && !STATEFUL_STAGES.contains(&k.as_str())) {
       return RunOut::invalid();
     }
     let probes = w.i("cb_probes").clamp(0, 3) as u32;
@@ -480,7 +485,18 @@ impl Family for C19Subjects {
       let sbj = Subj::make(&kind2).unwrap();
       let mut subs = Vec::new();
       for (r, k) in recs2.iter().zip(ok2.iter()) {
-        let o = if k == "map" { sbj.observable().map(|x: Val| x) } else { sbj.observable() };
+        let o = if k == "map" {
+          sbj.observable().map(|x: Val| x)
+        } else if k == "direct" {
+          sbj.observable()
+        } else {
+          let ctx = crate::pipe::Ctx::new(vec![sbj.observable()]);
+          let j = Json::obj(vec![("op", Json::str(k.as_str())), ("a", Json::Int(2)), ("in", Json::obj(vec![("src", Json::Int(0))]))]);
+          match crate::pipe::build(&j, &ctx) {
+            Some(o) => o,
+            None => return,
+          }
+        };
         subs.push(r.subscribe(&o));
       }
       let mut hs = Vec::new();
@@ -520,7 +536,7 @@ impl Family for C19Subjects {
     history.sort();
     for (i, r) in recs.iter().enumerate() {
       let ran = Ran { res: res.clone(), rec: r.clone(), rec_b: None, logs: vec![log.clone()], inner_logs: Arc::new(Mutex::new(Vec::new())) };
-      let b = if obs_kinds[i] == "map" { format!("{}+map", blame) } else { blame.to_string() };
+      let b = if obs_kinds[i] != "direct" { format!("{}+{}", blame, obs_kinds[i]) } else { blame.to_string() };
       violations.extend(c19_oracle(&ran, &b));
     }
     let reach = vec![("c19-subject-terminal-delivered", recs.iter().any(|r| r.events().iter().any(|e| e.ev.is_terminal())) as u64)];
